@@ -77,13 +77,17 @@ def sketch(draw, loop_button=False):
         use_helper = not loop_button
     body = list(decl_loop)
     for _ in range(draw(st.integers(1, 7))):
-        k = draw(st.sampled_from(["btn", "btn", "btn_if", "pot", "pot_pair", "us", "us2", "sleep", "helper"]))
+        k = draw(st.sampled_from(["btn", "btn", "btn_if", "btn_while", "pot", "pot_pair", "us", "us2", "sleep", "helper"]))
         if k == "btn":
             i = draw(st.integers(0, nb - 1))
             body.append(f"mon.write('b{i}:' + str(btn{i}.is_pressed()))")
         elif k == "btn_if":
             i = draw(st.integers(0, nb - 1))
             body += [f"if btn{i}.is_pressed() == 1:", f"    mon.write('b{i}:1')", "else:", f"    mon.write('b{i}:0')"]
+        elif k == "btn_while":
+            # a loop whose condition asks the button again: still this pass's one sample (the body leaves the loop itself)
+            i = draw(st.integers(0, nb - 1))
+            body += [f"while btn{i}.is_pressed() == 1:", f"    mon.write('b{i}:1')", "    break", f"if btn{i}.is_pressed() == 1:", f"    while btn{i}.is_pressed():", f"        mon.write('b{i}:1')", "        break"]
         elif k == "helper" and use_helper:
             body.append("mon.write('b0:' + str(chk()))")
         elif k == "pot" and npot:
